@@ -15,6 +15,23 @@ type Leaf struct {
 	Typ  types.Type // Go type of the leaf (for signedness), may be nil for synthetic leaves
 }
 
+// isRef: the leaf holds an object reference (pointer or map), as opposed to a
+// 32-bit machine integer, which has the same SMT sort.
+func (l Leaf) isRef() bool {
+	return l.Sort == SRef && l.Typ != nil && isRefType(l.Typ)
+}
+
+func isRefType(t types.Type) bool {
+	if t == nil {
+		return false
+	}
+	switch t.Underlying().(type) {
+	case *types.Pointer, *types.Map:
+		return true
+	}
+	return false
+}
+
 // Val is a symbolic Go value.
 type Val struct {
 	T types.Type
